@@ -126,6 +126,18 @@ fn verif_native_lexer_token_witness() {
             }
         }
     }
+    // every character other than " and \ stands for itself -- also the delimiters, a raw line break and a tab
+    for c in ['a', 'Z', '0', ' ', '\t', '\n', '\r', '(', ')', ';', '|', '\'', '#', '.', ',', '`', '\u{e9}'] {
+        for (pre, post) in [("", ""), ("x", "y")] {
+            let text = format!("\"{}{}{}\" z", pre, c, post);
+            n += 1;
+            let expected = format!("{}{}{}", pre, c, post);
+            match lex(&text).first() {
+                Some(Ok((TokenData::Primitive(Primitive::String(got)), _))) if *got == expected => {}
+                other => if bad.len() < 4 { bad.push(format!("{:?}: string token {:?}, expected contents {:?}", text, other, expected)); },
+            }
+        }
+    }
     for text in ["\"ab", "\"a\\", "\"a\\q\""] {
         n += 1;
         if !matches!(lex(text).first(), Some(Err(_))) && bad.len() < 4 { bad.push(format!("{:?}: an unterminated string / unknown escape must be an error", text)); }
